@@ -187,3 +187,46 @@ class SimDisk(object):
 
     def open(self, filename, mode='r', encoding=None):
         return SimFile(self, filename, mode or 'r', encoding)
+
+
+def merge_order(rng, lens):
+    """A seeded interleaving of K streams: list of stream indices, each stream i appearing lens[i] + 1 times
+    (its chunks, then its completion)."""
+    pool = []
+    for i, n in enumerate(lens):
+        pool += [i] * (n + 1)
+    rng.shuffle(pool)
+    return pool
+
+
+def drive_concurrent(chunk_lists, make_operator, order):
+    """K independent streams, each through its *own* instance of the real operator, alive at the same time; the
+    seeded order decides whose next chunk (or completion) is delivered.  Returns [(items, terminal)] per stream.
+    A module-level or otherwise shared piece of state in the operator shows up as cross-talk."""
+    k = len(chunk_lists)
+    subjects = [Subject() for _ in range(k)]
+    outs = [[] for _ in range(k)]
+    terms = [[] for _ in range(k)]
+    for i in range(k):
+        subjects[i].pipe(make_operator(i)).subscribe(
+            on_next=outs[i].append,
+            on_error=(lambda e, i=i: terms[i].append(('error', e))),
+            on_completed=(lambda i=i: terms[i].append(('completed',))))
+    pos = [0] * k
+    try:
+        for i in order:
+            if terms[i]:
+                continue
+            if pos[i] < len(chunk_lists[i]):
+                subjects[i].on_next(chunk_lists[i][pos[i]])
+                pos[i] += 1
+            else:
+                subjects[i].on_completed()
+    except Exception as e:
+        from .core import innermost_in_verif
+        if innermost_in_verif(e):
+            raise
+        for i in range(k):
+            if not terms[i]:
+                terms[i].append(('escaped', e))
+    return [(outs[i], terms[i][0] if terms[i] else None) for i in range(k)]
